@@ -181,7 +181,7 @@ CLAIMED = {
  'C08': dict(
     category='proof',
     text="Per year, Rocq theorem C08_statutory_amounts_<year>: probes_ok cat tax probes = true - for every (tax year, filing status, item) of "
-         "the independent oracle table (oracles/statutory.json: 40 items x statuses x years, each with its citation), the "
+         "the independent oracle table (oracles/statutory.json: 44 items x statuses x years, each with its citation), the "
          "shipped line that shows the amount, evaluated by the interpreter of the regenerated deep embedding on a minimal store, yields the "
          "published amount (or switches outcome exactly at it). Exhaustive over the finite triple set, decided by vm_compute in the kernel; "
          "the amounts PRINTED in the bundled templates (page text and accessibility text: standard deductions, CTC phase-out starts, SALT cap, "
